@@ -2,6 +2,8 @@
 use crate::{container, tag_enum, transparent_enum, transparent_struct, union_enum};
 use alloy_primitives::Bytes;
 use ssz::{BitList, BitVector, BitVectorDynamic};
+use smallvec::SmallVec;
+use std::collections::{BTreeMap, BTreeSet};
 use std::sync::Arc;
 use typenum::*;
 
@@ -14,6 +16,7 @@ container!(CF2 { a: bool, b: [u8; 3], c: CF });
 container!(CV { a: Vec<u8> });
 container!(CM { a: u16, b: Vec<u16>, c: u32 });
 container!(CVV { a: Vec<u8>, b: Vec<u16> });
+container!(CSet { a: u8, s: BTreeSet<u64>, m: BTreeMap<u8, u16>, z: u16 });
 container!(CBB { a: Bytes, x: u8, b: Bytes, c: Vec<u8> });
 container!(CFVFV { a: u8, b: Vec<u8>, c: u16, d: Vec<Vec<u8>>, e: u8 });
 container!(CVF { a: Vec<u16>, b: u64 });
@@ -35,6 +38,16 @@ union_enum!(Un3 { A(u16) = 0, B(CM) = 1, C(Option<u8>) = 2 });
 union_enum!(UnN { A(Un2) = 0, B(Vec<Un2>) = 1 });
 
 tag_enum!(Tag1 { A = 0 });
+
+/// a tag enum whose Rust discriminants differ from the declaration order (selectors are declaration indices)
+#[derive(ssz_derive::Encode, ssz_derive::Decode, Clone, Copy, PartialEq, Eq, PartialOrd, Ord, Debug)]
+#[ssz(enum_behaviour = "tag")]
+pub enum TagX { Mainnet = 1, Goerli = 5, Gnosis = 100 }
+impl crate::model::Model for TagX {
+    fn desc() -> String { "G3".into() }
+    fn to_val(&self) -> String { match self { TagX::Mainnet => "G0".into(), TagX::Goerli => "G1".into(), TagX::Gnosis => "G2".into() } }
+    fn gen(g: &mut crate::rng::Rng, _size: usize) -> Self { *g.pick(&[TagX::Mainnet, TagX::Goerli, TagX::Gnosis]) }
+}
 tag_enum!(Tag3 { A = 0, B = 1, C = 2 });
 
 transparent_enum!(Tr1 { A(Vec<u8>) = 0 });
@@ -75,7 +88,7 @@ macro_rules! for_each_type {
         $f::<Vec<[u8; 0]>>($ctx); $f::<Vec<(u8, u16)>>($ctx); $f::<Vec<(u8, Vec<u8>)>>($ctx);
         $f::<Vec<B256>>($ctx); $f::<Vec<Bytes>>($ctx); $f::<Vec<AU256>>($ctx); $f::<Vec<NonZeroUsize>>($ctx);
         $f::<Vec<UnZ>>($ctx); $f::<Vec<(UnZ, UnZ)>>($ctx); $f::<Vec<TsZ>>($ctx); $f::<(u8, [u8; 0])>($ctx); $f::<(Vec<u8>, [u8; 0])>($ctx); $f::<Vec<(u16, [u8; 0])>>($ctx);
-        $f::<Vec<CF>>($ctx); $f::<Vec<CM>>($ctx); $f::<Vec<C0>>($ctx); $f::<Vec<Un2>>($ctx); $f::<Vec<Tag3>>($ctx);
+        $f::<Vec<CF>>($ctx); $f::<Vec<CM>>($ctx); $f::<Vec<C0>>($ctx); $f::<Vec<Un2>>($ctx); $f::<Vec<Tag3>>($ctx); $f::<TagX>($ctx); $f::<Vec<TagX>>($ctx); $f::<SmallVec<[TagX; 2]>>($ctx); $f::<(TagX, u8, Vec<TagX>)>($ctx); $f::<BTreeSet<TagX>>($ctx);
         // SmallVec
         $f::<SmallVec<[u16; 4]>>($ctx); $f::<SmallVec<[Vec<u8>; 2]>>($ctx); $f::<SmallVec<[[u8; 0]; 2]>>($ctx);
         $f::<SmallVec<[u8; 1]>>($ctx);
@@ -99,7 +112,8 @@ macro_rules! for_each_type {
         $f::<BTreeSet<u16>>($ctx); $f::<BTreeSet<Vec<u8>>>($ctx); $f::<BTreeSet<[u8; 2]>>($ctx);
         $f::<BTreeSet<(u8, u8)>>($ctx); $f::<BTreeSet<[u8; 0]>>($ctx);
         $f::<BTreeMap<u8, u16>>($ctx); $f::<BTreeMap<u16, Vec<u8>>>($ctx); $f::<BTreeMap<Vec<u8>, u8>>($ctx);
-        $f::<BTreeMap<u8, u8>>($ctx); $f::<BTreeMap<[u8; 0], [u8; 0]>>($ctx); $f::<BTreeMap<Option<u8>, Vec<u16>>>($ctx);
+        $f::<BTreeMap<u8, u8>>($ctx); $f::<BTreeMap<u8, bool>>($ctx); $f::<BTreeMap<u8, NonZeroUsize>>($ctx); $f::<BTreeSet<bool>>($ctx); $f::<BTreeMap<bool, u8>>($ctx);
+        $f::<(u8, BTreeSet<u64>)>($ctx); $f::<Vec<BTreeSet<u16>>>($ctx); $f::<BTreeMap<u8, BTreeSet<u8>>>($ctx); $f::<BTreeMap<BTreeSet<u64>, u16>>($ctx); $f::<Option<BTreeMap<u8, u16>>>($ctx); $f::<BTreeMap<[u8; 0], [u8; 0]>>($ctx); $f::<BTreeMap<Option<u8>, Vec<u16>>>($ctx);
         // bitfields
         $f::<BitList<U0>>($ctx); $f::<BitList<U1>>($ctx); $f::<BitList<U2>>($ctx); $f::<BitList<U7>>($ctx);
         $f::<BitList<U8>>($ctx); $f::<BitList<U9>>($ctx); $f::<BitList<U15>>($ctx); $f::<BitList<U16>>($ctx);
@@ -118,7 +132,7 @@ macro_rules! for_each_type {
         $f::<Vec<BitVector<U12>>>($ctx); $f::<Vec<BitVectorDynamic>>($ctx);
         // derived
         $f::<C0>($ctx); $f::<C1>($ctx); $f::<CF>($ctx); $f::<CF2>($ctx); $f::<CV>($ctx); $f::<CM>($ctx);
-        $f::<CVV>($ctx); $f::<CBB>($ctx); $f::<(Bytes, Bytes)>($ctx); $f::<Vec<(u8, u16)>>($ctx); $f::<Option<Bytes>>($ctx); $f::<CFVFV>($ctx); $f::<CVF>($ctx); $f::<CN>($ctx); $f::<CO>($ctx); $f::<CB>($ctx);
+        $f::<CVV>($ctx); $f::<CSet>($ctx); $f::<CBB>($ctx); $f::<(Bytes, Bytes)>($ctx); $f::<Vec<(u8, u16)>>($ctx); $f::<Option<Bytes>>($ctx); $f::<CFVFV>($ctx); $f::<CVF>($ctx); $f::<CN>($ctx); $f::<CO>($ctx); $f::<CB>($ctx);
         $f::<CZ>($ctx); $f::<CT>($ctx); $f::<CArc>($ctx); $f::<CSix>($ctx); $f::<CNine>($ctx);
         $f::<Un1>($ctx); $f::<Un2>($ctx); $f::<Un3>($ctx); $f::<UnN>($ctx); $f::<Un127>($ctx); $f::<Un128>($ctx);
         $f::<Tag1>($ctx); $f::<Tag3>($ctx); $f::<Tag128>($ctx);
